@@ -15,14 +15,28 @@ OFFENDERS = {
     "CR": "\r", "LF": "\n", "CRLF": "\r\n", "NUL": "\x00", "VT": "\x0b", "FF": "\x0c", "NEL": "\x85", "U2028": " ",
     "U0100": "Ā", "COLON": ":", "SPACE": " ", "TAB": "\t", "DEL": "\x7f", "LATIN1": "\xe9", "INJECT": "\r\nX-Injected: 1",
     "SPLIT": "\r\n\r\nHTTP/1.1 200 OK\r\n",
+    # letters whose str.capitalize()/upper() is not a one-to-one case change
+    "SHARP_S": "\xdf", "LIG_FI": "\ufb01", "DZ_DIGRAPH": "\u01c6", "N_APOS": "\u0149",
 }
+
+
+class Chameleon(str):
+    """a str whose content is harmless and whose __str__() is not (what '%s' formatting calls)"""
+
+    def __str__(self):
+        return str.__str__(self) + "\r\nX-Injected: 1"
+
+    def __repr__(self):
+        return "Chameleon(%s)" % str.__repr__(self)
+
 MUST_REFUSE = {"CR", "LF", "CRLF", "INJECT", "SPLIT"}
 HOP = ["Connection", "Keep-Alive", "Proxy-Authenticate", "Proxy-Authorization", "TE", "Trailer", "Transfer-Encoding", "Upgrade",
        "transfer-encoding", "CONNECTION"]
 EVIDENCE = {
     "rule": "one application script per run: 0-5 benign header pairs plus one hostile element: an offending code point ("
             + ", ".join(sorted(OFFENDERS)) + ") at the first/middle/last position of the status string, a header name or a "
-            "header value; an empty name; a non-str status/name/value (bytes, int, None); a hop-by-hop name; delivered through "
+            "header value; an empty name; a non-str status/name/value (bytes, int, None); a str subclass whose __str__() differs from "
+            "its content; a hop-by-hop name; delivered through "
             "the initial start_response, through the exc_info re-call, or by mutating the header list after the call; every "
             "generated string carries a marker so that application bytes are recognisable on the wire; distinct = distinct "
             "history digest; non-trivial = the script contains a hostile element",
@@ -54,7 +68,7 @@ def gen(W):
     sc["headers"] = hdrs
     sc["status"] = "200 OK"
     sc["hostile"] = W.choice(["char_status", "char_name", "char_value", "char_special", "empty_name", "nonstr_status", "nonstr_name",
-                              "nonstr_value", "hop_by_hop", "none"], p0=0.05)
+                              "nonstr_value", "hop_by_hop", "none", "strsub_status", "strsub_name", "strsub_value"], p0=0.05)
     sc["special"] = W.choice(["Content-Length", "content-length", "Date", "Server", "Content-Type", "Set-Cookie", "CONTENT-LENGTH"])
     sc["off"] = W.choice(sorted(OFFENDERS))
     sc["pos"] = W.draw(3)
@@ -118,6 +132,12 @@ def build_hostile(sc):
         hdrs.insert(i, ("X-Hostile" + MARK, ns))
         must = True
         desc = "nonstr_value:" + sc["nonstr"]
+    elif h == "strsub_status":
+        status = Chameleon("200 OK" + MARK)
+    elif h == "strsub_name":
+        hdrs.insert(i, (Chameleon("X-Hostile" + MARK), "v" + MARK))
+    elif h == "strsub_value":
+        hdrs.insert(i, ("X-Hostile" + MARK, Chameleon("value" + MARK)))
     elif h == "hop_by_hop":
         hdrs.insert(i, (sc["hop"], "close" if sc["hop"].lower() == "connection" else "x" + MARK))
         must = True
@@ -281,7 +301,7 @@ def run_one(tapes, tier, scenario=None):
                 res.v("field_lost", tag, "application fields missing from the head: %r; head %r" % (remaining[:4], head[:300]))
             st_line = lines[0].decode("latin-1")
             exp_status = status if sc["channel"] not in ("mutate_after", "mutate_item_after") and not (sc["channel"] == "swallow_refusal" and app.raised is not None) else None
-            if isinstance(exp_status, str) and st_line != "HTTP/%s %s" % (r.version, exp_status):
+            if isinstance(exp_status, str) and st_line != "HTTP/%s %s" % (r.version, str.__str__(exp_status)):
                 res.v("status_line", tag, "status line %r, application said %r" % (st_line, exp_status))
     lp = common.log_problems(sim, patterns=("uncaptured python exception", "Exception when servicing"))
     if lp:
